@@ -431,20 +431,25 @@ def h_mol2(ctx, natom=3):
 
 
 # ------------------------------------------------------------------------------------------ XYZ / EXTXYZ
-def h_xyz(ctx, nframes=2, ext=False):
+def h_xyz(ctx, nframes=2, ext=False, same_title=False):
     import iodata.api as api
     mods = rt._fmt_modules("extxyz" if ext else "xyz") + rt._fmt_modules("xyz")
     with stubbed(*mods):
         frames = []
         for f in range(nframes):
             atoms = []
-            for i in range(1 + (f + 1) % 3):
+            for i in range(2 if same_title else 1 + (f + 1) % 3):
                 sym = ["O", "H", "Cl"][i % 3]
                 x, y, z = (ctx.real(f"f{f}x{i}_{k}", lo=-900, hi=900, default=1.5 * k - i) for k in range(3))
                 if ext:
                     m = ctx.real(f"f{f}m{i}", lo=0.5, hi=300, default=15.999)
                     fx, fy, fz = (ctx.real(f"f{f}F{i}_{k}", lo=-90, hi=90, default=0.01 * k) for k in range(3))
-                    atoms.append((sym, x, y, z, m, fx, fy, fz))
+                    if same_title:
+                        # two user-defined per-atom columns whose values differ from frame to frame
+                        atoms.append((sym, x, y, z, m, fx, fy, fz, ctx.real(f"f{f}q{i}", lo=-9, hi=9, default=0.1 * f - 0.3 * i),
+                                      7 * f + i))
+                    else:
+                        atoms.append((sym, x, y, z, m, fx, fy, fz))
                 else:
                     atoms.append((sym, x, y, z))
             fr = dict(title=f"frame {f}", atoms=atoms)
@@ -453,8 +458,12 @@ def h_xyz(ctx, nframes=2, ext=False):
                                  for r in range(3)]
                 fr["energy"] = ctx.real(f"f{f}E", lo=-1e4, hi=1e4, default=-76.4)
                 fr["charge"] = ctx.real(f"f{f}Q", lo=-9, hi=9, default=1.0)
+                if same_title and frames:
+                    # molecular-dynamics output without per-frame numbers in the comment line: byte-identical title lines
+                    for key in ("lattice", "energy", "charge"):
+                        fr[key] = frames[0][key]
             frames.append(fr)
-        text = (L.write_extxyz if ext else L.write_xyz)(dict(frames=frames))
+        text = (L.write_extxyz if ext else L.write_xyz)(dict(frames=frames, custom=same_title))
         path = ctx.tmp_path("m.extxyz" if ext else "m.xyz")
         ctx.write_text(path, text)
         ds, err = _load(ctx, api, path, many=True)
@@ -476,6 +485,9 @@ def h_xyz(ctx, nframes=2, ext=False):
                 _cmp(ctx, "charge", d.charge, fr["charge"], cls, tol=1e-3)
                 wl = _arr(ctx, [[v * L.ANGSTROM for v in row] for row in fr["lattice"]])
                 _cmp(ctx, "cellvecs", d.cellvecs, wl, cls, tol=1e-6)
+                if same_title:
+                    _cmp(ctx, "extra.q-of-this-frame", d.extra.get("q"), _arr(ctx, [a[8] for a in fr["atoms"]]), cls, tol=1e-5)
+                    _cmp(ctx, "extra.site-of-this-frame", np.asarray(d.extra.get("site")), np.array([a[9] for a in fr["atoms"]]), cls)
             else:
                 _cmp(ctx, "title", d.title, fr["title"], cls)
 
@@ -1041,6 +1053,7 @@ def jobs(tier):
         out.append(job("C03", f"mol2[n={n}]", M, "h_mol2", dict(natom=n), max_validate=4))
     out.append(job("C03", "xyz", M, "h_xyz", dict(nframes=3, ext=False), max_validate=3))
     out.append(job("C03", "extxyz", M, "h_xyz", dict(nframes=2, ext=True), max_validate=3))
+    out.append(job("C03", "extxyz[identical titles, user columns]", M, "h_xyz", dict(nframes=3, ext=True, same_title=True), max_validate=3))
     for kind in ("poscar", "chgcar", "locpot"):
         for direct in (True, False):
             for sel in ((False, True) if kind == "poscar" else (False,)):
